@@ -76,6 +76,7 @@ package kms
 //@   loop 1 invariant [C17:entries-indexed-by-region] 0 <= iter && iter <= len(dyn(arg(Unmarshal, 1, v), *envelope).KEKs) && keks != nil && (forall r string :: r in keks ==> (exists j int :: 0 <= j && j < iter && dyn(arg(Unmarshal, 1, v), *envelope).KEKs[j].Region == r)) && (forall j int :: 0 <= j && j < iter ==> dyn(arg(Unmarshal, 1, v), *envelope).KEKs[j].Region in keks)
 //@   loop 2 invariant [C17:regions-tried-in-client-order] clientsStable(a) && keks != nil && (forall x int :: 0 <= x && x < len(dyn(arg(Unmarshal, 1, v), *envelope).KEKs) ==> dyn(arg(Unmarshal, 1, v), *envelope).KEKs[x].Region in keks) && 0 <= iter && iter <= len(a.clients) && (forall j int :: 0 <= j && j < iter && a.clients[j].Region in keks ==> ctried(a.clients[j].Client) == old(ctried(a.clients[j].Client)) + 1) && (forall j int :: iter <= j && j < len(a.clients) ==> ctried(a.clients[j].Client) == old(ctried(a.clients[j].Client)))
 //@   ensures (err == nil) || result == nil
+//@   ensures [C17:client-list-is-never-rewritten] clientsStable(a)
 //@   ensures [C17:unwrap-returns-what-the-working-region-decrypted] err == nil ==> result == ret(Decrypt, 1, 0)
 //@   ensures [C17:unwrap-fails-only-after-every-region-with-an-entry-was-tried] err != nil && retis(Unmarshal, 1, 0, nil) ==> (forall j int, x int :: 0 <= j && j < len(a.clients) && 0 <= x && x < len(dyn(arg(Unmarshal, 1, v), *envelope).KEKs) && dyn(arg(Unmarshal, 1, v), *envelope).KEKs[x].Region == a.clients[j].Region ==> ctried(a.clients[j].Client) == old(ctried(a.clients[j].Client)) + 1)
 
